@@ -18,6 +18,24 @@ mod facts;
 mod fnlevel;
 mod purefn;
 mod sched;
+mod x_extract;
+mod x_matches;
+mod x_counts;
+mod x_table;
+mod x_syntax;
+mod x_plans;
+mod x_semi;
+mod x_proofchk;
+mod x_enc;
+mod x_serialize;
+mod x_schema;
+mod x_session;
+mod x_snap;
+mod x_det;
+mod x_schedrun;
+mod x_cont;
+mod x_par;
+mod x_ufconc;
 
 use std::{fs, path::Path};
 
@@ -86,6 +104,33 @@ fn main() {
     let (text, mut rep) = purefn::generate(repo);
     write_if_changed(&out.join("PureFns.v"), &text);
     report.append(&mut rep);
+
+    // ---- extension modules (one per work area; each owns its own output file) ----------------
+    let ext: Vec<(&str, fn(&Path) -> (String, Vec<String>))> = vec![
+        ("ExtractFns.v", x_extract::generate),
+        ("MatchesFns.v", x_matches::generate),
+        ("CountsFns.v", x_counts::generate),
+        ("TableFns.v", x_table::generate),
+        ("SyntaxFacts.v", x_syntax::generate),
+        ("PlanFacts.v", x_plans::generate),
+        ("SemiFacts.v", x_semi::generate),
+        ("ProofChkFacts.v", x_proofchk::generate),
+        ("EncFacts.v", x_enc::generate),
+        ("SerializeFacts.v", x_serialize::generate),
+        ("SchemaFns.v", x_schema::generate),
+        ("SessionFacts.v", x_session::generate),
+        ("SnapFacts.v", x_snap::generate),
+        ("DetFacts.v", x_det::generate),
+        ("SchedRunFacts.v", x_schedrun::generate),
+        ("ContFacts.v", x_cont::generate),
+        ("ParFacts.v", x_par::generate),
+        ("UFConcFacts.v", x_ufconc::generate),
+    ];
+    for (file, gen) in ext {
+        let (text, mut rep) = gen(repo);
+        write_if_changed(&out.join(file), &text);
+        report.append(&mut rep);
+    }
 
     let rep_text = format!("[\n{}\n]\n", report.join(",\n"));
     fs::write(out.join("translator_report.json"), rep_text).unwrap();
